@@ -158,11 +158,44 @@ def try_refute(prop, v, repo, seed):
     name = fn.split("::")[-1].strip() if fn else ""
     if unit in ("F64", "F32"):
         return refute_field(64 if unit == "F64" else 32, name, repo, seed)
+    if unit in ("CONST64", "CONST32"):
+        return refute_basepoint_table(64 if unit == "CONST64" else 32, v.get("obligation") or "", repo)
     if unit in ("S64", "S32"):
         r = refute_scalar(64 if unit == "S64" else 32, name, repo, seed)
         return r if r is not None else refute_papi(unit, name, repo, seed)
     if unit in ("ED", "RIS", "MONT", "SG", "SGR", "SM", "SM2", "SIG", "FG", "GRP", "MSM", "VSM", "VMSM", "AVX2E", "AVX2F", "BATCH", "K-SERDE", "RIS2", "SMNT", "BV", "IFMAE", "IFMAF", "TRS", "HW", "RND", "FF64", "FF32"):
         return refute_papi(unit, name, repo, seed)
+    return None
+
+
+def refute_basepoint_table(bits, obligation, repo):
+    """a failed entry obligation `ED25519_BASEPOINT_TABLE.<i>.<j>` of the serial constants file: entry (i, j) is [(j+1) * 256^i]B and fixed-base
+    multiplication reads it for the radix-16 digit +-(j+1) at positions 2i (and 2i+1, times 16). The scalars that select exactly that entry (and its
+    chain predecessor) are multiplied through the REAL `EdwardsPoint::mul_base` in a serial build of that word size and compared with the oracle."""
+    import re as _re
+    from vlib import oracle as O
+    m = _re.search(r"ED25519_BASEPOINT_TABLE\.(\d+)\.(\d+)$", obligation)
+    if not m:
+        return None
+    i, j = int(m.group(1)), int(m.group(2))
+    backend = "serial" if bits == 64 else "serial32"
+    binary = _build_papi(repo, backend)
+    if binary is None:
+        return None
+    reqs, exps = [], []
+    for k in sorted({j + 1, max(j, 1)}):
+        for sc in (k * 256**i, 16 * k * 256**i, (O.L - k * 256**i) % O.L):
+            if 0 < sc < 2**255:
+                reqs.append("ed.mul_base %s" % _h(sc.to_bytes(32, "little")))
+                exps.append(_h(O.ed_encode(O.ed_mul(sc, O.B))))
+    got = _ask(binary, reqs)
+    if len(got) != len(reqs):
+        return None
+    for rq, ex, g in zip(reqs, exps, got):
+        if g.startswith("PANIC") or g[3:].strip() != ex:
+            return {"kind": "wrong result", "request": rq, "reply": g[:400], "expected": ex, "papi": True,
+                    "oracle": "vlib/oracle.py (repeated addition of the RFC 8032 base point)",
+                    "backend": "built with " + _BACKEND_CFG.get(backend, '--cfg curve25519_dalek_backend="%s"' % backend)}
     return None
 
 
@@ -387,7 +420,7 @@ _SERIAL_UNITS = ("SM", "SM2", "MSM", "SGR", "SMNT", "RIS2", "TRS", "BV", "SIG")
 
 
 # the fiat units verify wrapper code that only a fiat build compiles: their native replay is a fiat build of the replay crate
-_BACKEND_CFG = {"fiat32": '--cfg curve25519_dalek_backend="fiat" --cfg curve25519_dalek_bits="32"'}
+_BACKEND_CFG = {"serial32": '--cfg curve25519_dalek_backend="serial" --cfg curve25519_dalek_bits="32"', "fiat32": '--cfg curve25519_dalek_backend="fiat" --cfg curve25519_dalek_bits="32"'}
 _FIAT_UNITS = {"FF64": "fiat", "FF32": "fiat32"}
 
 
